@@ -59,6 +59,7 @@ type Contract struct {
 	Vars      []LemmaVar // lemma only
 	IsLemma   bool
 	Preserves []*Clause // closure contracts: facts over captured variables and world that hold before and after each call (requires + ensures); the iterating caller checks them once and may assume them afterwards
+	Steps     []*Clause // closure contracts: reflexive-transitive two-state relations established by every call
 	Iterates  bool      // the function applies its closure argument to each element of a collection (A-ITER)
 	Hints     []*Clause // intermediate facts at the return sites (may mention named locals); proved, then assumed
 	Canary    []*Clause // deliberately false ensures: must be refuted
@@ -325,6 +326,20 @@ func parseContractFile(path string, pkgPath string) ([]*Contract, error) {
 				c.Label = fmt.Sprintf("post%d", len(cur.Ensures))
 			}
 			cur.Ensures = append(cur.Ensures, c)
+		case "step":
+			// closure contracts: a two-state relation (mentions old(...)) that every call establishes between its entry and exit
+			// state; it must be reflexive and transitive (checked at the iterating call site), so it holds across the iteration
+			c, err := parseClause("step", rest)
+			if err != nil {
+				return nil, fail(err)
+			}
+			if c.Label == "" {
+				c.Label = fmt.Sprintf("step%d", len(cur.Steps))
+			}
+			cur.Steps = append(cur.Steps, c)
+			en := *c
+			en.Kind = "ensures"
+			cur.Ensures = append(cur.Ensures, &en)
 		case "preserves":
 			c, err := parseClause("preserves", rest)
 			if err != nil {
